@@ -177,21 +177,10 @@ def _quoted_backslash(text):
     return "\\" in text and "\r" not in text and "\n" not in text
 
 
-def _tail_literal_ws(text):
-    """leaf sent as a literal (CR/LF inside) whose last byte is ASCII whitespace"""
-    return ("\r" in text or "\n" in text) and text[-1:] != "" and text[-1] in _WS
-
-
 EXCLUDE = {
     "backslash-not-unescaped": {
         "one": "not (kind == 0 and _quoted_backslash(a))",
         "two": "not (_quoted_backslash(a) or (kind == 0 and _quoted_backslash(b_)))",
-    },
-    # parseNestedParens strips the whole input first: a literal that ends the top-level string loses
-    # its trailing whitespace (only top-level-last leaves: shapes one/0,3 and two/0,3,5)
-    "literal-tail-stripped": {
-        "one": "not (kind == 0 and (shape == 0 or shape == 3) and _tail_literal_ws(a))",
-        "two": "not ((shape == 0 or shape == 3 or shape == 5) and kind == 0 and _tail_literal_ws(b_))",
     },
 }
 
@@ -200,13 +189,9 @@ def classify(harness_name, args):
     if harness_name == "one":
         if args["kind"] == 0 and _quoted_backslash(args["a"]):
             return "backslash-not-unescaped"
-        if args["kind"] == 0 and args["shape"] in (0, 3) and _tail_literal_ws(args["a"]):
-            return "literal-tail-stripped"
     if harness_name == "two":
         if _quoted_backslash(args["a"]) or (args["kind"] == 0 and _quoted_backslash(args["b_"])):
             return "backslash-not-unescaped"
-        if args["shape"] in (0, 3, 5) and args["kind"] == 0 and _tail_literal_ws(args["b_"]):
-            return "literal-tail-stripped"
     return None
 
 
